@@ -38,7 +38,12 @@ import lua_wireshark as LW  # noqa: E402
 import samples  # noqa: E402
 import wire_ref  # noqa: E402
 
-LIMIT_FACTOR = 500        # real-Lua VM instructions (the Lua-written stub included) allowed per step of the Python interpreter
+# Execution limits are not comparable (python counts calls + loop iterations, real Lua counts VM instructions, those of
+# the Lua-written stub included).  So: when the python side completed within its step limit the real side gets a
+# generous instruction budget (LIMIT_FACTOR per python step); when the python side was stopped by its limit the real
+# side only gets LIMIT_FACTOR_LOW per step (it is expected to be stopped as well, and should be stopped quickly).
+LIMIT_FACTOR = 2000
+LIMIT_FACTOR_LOW = 100
 DEFAULT_CLI = os.environ.get("LUA_DIFF_CLI", "/tmp/wt/C15/_bin/fin-protoc")
 
 
@@ -54,6 +59,8 @@ class Tally:
         self.dis = []             # (id, what, detail): BEHAVIOUR differs (ok flags, values, adds, columns)
         self.minor = []           # (id, what, detail): both raise an error at the same point, the message TEXT differs
         self.unsupported = []     # (id, text): construct outside the Python interpreter's subset
+        self.errors = 0           # agreements in which both sides raised the same error
+        self.err_kinds = {}       # normalised error text (digits -> N) -> count
         self.limits = []          # (id, text): exactly one side ran into its execution limit (the limits are not comparable)
         self.extra = {}
 
@@ -107,6 +114,9 @@ def cmp_err(tally, ident, pe, re_, ctx=""):
         return False
     if pl != rl:
         tally.line_only.append((ident, pl, rl, pt))
+    tally.errors += 1
+    k = re.sub(r"\d+", "N", pt or "")
+    tally.err_kinds[k] = tally.err_kinds.get(k, 0) + 1
     return True
 
 
@@ -184,6 +194,7 @@ class Dual:
         self.real = None
         self.usable = False
         self.py_crash = None
+        self.max_steps = max_steps
         kw = {}
         limit = lua_real.DEFAULT_LIMIT
         if max_steps is not None:
@@ -231,6 +242,9 @@ class Dual:
             t.bad(ident, "python interpreter CRASHED", "%s: %s\n          real: ok=%s err=%s" % (type(e).__name__, e, r["ok"], r["err"]))
             return None
         p["emit"] = list(self.py.interp.emitted)
+        if self.max_steps is not None:
+            stopped = not p["ok"] and split_err(p["err"])[2] == "<limit exceeded>"
+            self.real.set_limit(self.max_steps * (LIMIT_FACTOR_LOW if stopped else LIMIT_FACTOR))
         r = self.real.dissect(data)
         probs = []
         if p["ok"] != r["ok"]:
@@ -421,7 +435,9 @@ def compile_lua(cli, prog, root):
     except subprocess.TimeoutExpired:
         return None, "compiler timed out"
     if r.returncode != 0:
-        return None, "rc=%d %s" % (r.returncode, (r.stdout + r.stderr)[-300:])
+        lines = [x.strip() for x in (r.stdout + r.stderr).splitlines() if x.strip()]
+        key = [x for x in lines if x.startswith(("panic:", "Error", "error"))] or lines[-1:]
+        return None, "rc=%d %s" % (r.returncode, " | ".join(key)[:200])
     files = sorted(f for f in os.listdir(out) if f.endswith(".lua")) if os.path.isdir(out) else []
     if not files:
         return None, "no .lua file emitted"
@@ -457,9 +473,9 @@ def section_corpus(args, tally):
             st["files"] += 1
             with open(path, "rb") as fh:
                 src = fh.read()
-            # execution limit: 200k interpreter steps / 4M real instructions (a 130-element list needs a few thousand);
+            # execution limit: 50k interpreter steps (a 130-element list of objects needs a few thousand);
             # keeps dissectors that loop over a huge count without consuming bytes (repeat of an empty packet) cheap
-            d = Dual(tally, "%s %s" % (pid, os.path.relpath(path, keep)), src, os.path.basename(path), max_steps=200000)
+            d = Dual(tally, "%s %s" % (pid, os.path.relpath(path, keep)), src, os.path.basename(path), max_steps=50000)
             if d.usable:
                 st["loaded_ok"] += 1
                 seen = set()
@@ -885,6 +901,12 @@ def clip(text, n=700):
 def report(t, verbose):
     print("  comparisons %d   agreements %d   BEHAVIOUR disagreements %d   error-text-only differences %d   (line-only differences %d, outside the python subset %d)" % (
         t.n, t.agree, len(t.dis), len(t.minor), len(t.line_only), len(t.unsupported)))
+    if t.errors:
+        print("  %d of the agreements are errors raised identically by both; distinct messages (numbers -> N):" % t.errors)
+        for k, n in sorted(t.err_kinds.items(), key=lambda kv: -kv[1])[:None if verbose else 12]:
+            print("      %6d x %s" % (n, k[:150]))
+        if not verbose and len(t.err_kinds) > 12:
+            print("      ... %d more distinct messages (-v shows all)" % (len(t.err_kinds) - 12))
     for ident, what, detail in t.dis:
         print("  DISAGREE %s\n        %s\n          %s" % (ident, what, clip(detail)))
     for ident, what, detail in t.minor:
